@@ -14,7 +14,8 @@
 From Coq Require Import ZArith List Bool.
 From Low Require Import Lib.BitSeq Lib.Bytes Model.Pbcmpl Model.LegacyPbcmpl Spec.PbcmplSpec
   Proofs.PbcmplIO Proofs.PbcmplHeader Proofs.PbcmplProofs Proofs.PbcmplMarshal
-  Proofs.PbcmplFrames Proofs.PbcmplStream Proofs.PbcmplLegacy.
+  Proofs.PbcmplFrames Proofs.PbcmplStream Proofs.PbcmplHistory Proofs.PbcmplLegacy.
+From Low Require Import Lib.Val Run.PbcmplOps.
 Import ListNotations.
 Open Scope Z_scope.
 
@@ -184,6 +185,49 @@ Theorem C07_writer_every_point : forall (Msg : Type) (enc : Msg -> list Z) (m : 
       = Some (k, Some EInjected, (script', firstn (Z.to_nat k) (frame (ver_of ver) (enc m)))).
 Proof. exact Marshal_fails_at. Qed.
 Print Assumptions C07_writer_every_point.
+
+(** widening — whole histories on ARBITRARY bytes: calling Unmarshal again and again on
+    one reader until the first error (the way a read-until-EOF loop uses the package)
+    yields exactly the steps of the flat-stream specification and leaves exactly the
+    bytes it says — for every chunking, every terminal condition, each of the three
+    decoders of the harness (raw, BytesValue, picky raw), with NO premise on the bytes *)
+Theorem C07_stream_exact : forall kind cs t,
+  chunks_ok cs -> bytes_ok (concat cs) -> zlen (concat cs) < 2 ^ 63 ->
+  exists steps cs',
+    c_Stream kind (cs, t) = Some (steps, (cs', t))
+    /\ chunks_ok cs'
+    /\ spec_Stream (k_dec kind) EEOF payload_opt (concat cs) t = (steps, concat cs').
+Proof. exact c_Stream_spec. Qed.
+Print Assumptions C07_stream_exact.
+
+(** the protocol's compact description of a chunking is a chunking into non-empty chunks *)
+Theorem C07_chunks_of : forall pat s,
+  all_pos pat = true -> concat (chunks_of pat s) = s /\ chunks_ok (chunks_of pat s).
+Proof. exact chunks_of_ok. Qed.
+Print Assumptions C07_chunks_of.
+
+(** ... hence, for the three protocol operations of C07 exactly as Run/C07.v runs them:
+    on every in-domain argument the value computed from the model IS the value
+    computed from the specification (the verdict MODELBUG is impossible, and OK
+    means the implementation returned the specification's value) *)
+Theorem C07_op_stream : forall kind s pat t,
+  bytes_ok s -> all_pos pat = true -> zlen s < 2 ^ 63 ->
+  v_stream_model kind (chunks_of pat s, t) = v_stream_spec kind EEOF s t.
+Proof. exact v_stream_model_spec. Qed.
+Print Assumptions C07_op_stream.
+
+Theorem C07_op_readheader : forall s pat t,
+  bytes_ok s -> all_pos pat = true -> zlen s < 2 ^ 63 ->
+  v_readheader_model (chunks_of pat s, t) = v_readheader (spec_ReadHeader s t).
+Proof. exact v_readheader_model_spec. Qed.
+Print Assumptions C07_op_readheader.
+
+Theorem C07_op_marshal : forall kind script m,
+  zlen (k_enc kind (snd m)) < 2 ^ 63 - 32 ->
+  script_ok script [32; zlen (k_enc kind (snd m))] = true ->
+  v_marshal_model kind script m = v_marshal_spec kind script m.
+Proof. exact v_marshal_model_spec. Qed.
+Print Assumptions C07_op_marshal.
 
 (** the defect repaired by /repo commit 815cf27: against the pre-fix Unmarshal
     (Model/LegacyPbcmpl.v: make([]byte, int64(BodySize)) then io.ReadFull) the "never
